@@ -28,6 +28,11 @@ fn main() {
     let script: Vec<(String, u32)> = serde_json::from_str(&args[1]).unwrap();
     let size: usize = args[2].parse().unwrap();
     let delay: u64 = args[3].parse().unwrap();
+    // a child may consume its standard input first (whatever the caller gave it) before it says anything
+    if std::env::var_os("EMITTER_READ_STDIN").is_some() {
+        let mut sink = Vec::new();
+        let _ = std::io::Read::read_to_end(&mut std::io::stdin(), &mut sink);
+    }
     let mut id = 1u32;
     for (stream, n) in script {
         let fd = if stream == "out" { 1 } else { 2 };
